@@ -36,6 +36,7 @@ CONSTANTS Mode,      \* "mc": one aggregate, every prefix checked | "gen": pool 
           EUSuffixed, \* enum mode: values that are also tried with a `u` suffix
           GenClasses, \* "gen": member classes the generator may pick (subset of Classes)
           GenPacked,  \* "gen": whether packed structs are generated
+          McSel,      \* "mc": "full" member universe | "scan": small universe aimed at qbe.c:emittype's storage-unit scan (C08)
           CheckSim   \* BOOLEAN: assert the one-step simulation condition in every Add (all-lengths check with VIEW AccView)
 
 AllDevs == {"EnumFirstZeroUnsigned",  \* decl.c:260 the wrap test `value == 0 && !et->issigned` also fires for the first, implicit 0 of a fixed unsigned enum
@@ -471,15 +472,17 @@ Add(m) ==
   /\ pick' = ""
   /\ UNCHANGED <<pool, phase, want>>
 
+ScanPlain == {MEM(SC("char"), TRUE, -1, 0), MEM(SC("int"), TRUE, -1, 0), MEM(ARR(SC("char"), 3), TRUE, -1, 0)}
 AddPlain ==
-  \/ Mode = "mc"  /\ \E m \in MCPlain \cup MCFlex : (m \in MCFlex => ~st.un /\ \E i \in 1..Len(ms) : ms[i].nm) /\ Add(m)
+  \/ Mode = "mc"  /\ McSel = "scan" /\ \E m \in ScanPlain : Add(m)
+  \/ Mode = "mc"  /\ McSel = "full" /\ \E m \in MCPlain \cup MCFlex : (m \in MCFlex => ~st.un /\ \E i \in 1..Len(ms) : ms[i].nm) /\ Add(m)
   \/ Mode = "gen" /\ pick \in {"scalar", "array", "nested", "alignas", "flex"}
                   /\ \E m \in GenMembers(pick, st.un, Len(ms) + 1 = want) : m.nm /\ Add(m)
 AddBitfield ==
-  \/ Mode = "mc"  /\ \E m \in BFKinds : BFOk(m) /\ Add(m)
+  \/ Mode = "mc"  /\ \E m \in BFKinds : BFOk(m) /\ (McSel = "scan" => m.nm) /\ Add(m)
   \/ Mode = "gen" /\ pick = "bitfield" /\ \E m \in GenMembers(pick, st.un, FALSE) : Add(m)
 AddAnonymous ==
-  \/ Mode = "mc"  /\ \E m \in MCAnon : Add(m)
+  \/ Mode = "mc"  /\ McSel = "full" /\ \E m \in MCAnon : Add(m)
   \/ Mode = "gen" /\ pick \in {"anon", "alignas"} /\ \E m \in GenMembers(pick, st.un, FALSE) : ~m.nm /\ Add(m)
 
 Pick ==
@@ -526,7 +529,7 @@ Init ==
   /\ Mode \in {"mc", "gen", "enum", "eval"}
   /\ ms = <<>> /\ outs = <<>> /\ pick = ""
   /\ Mode # "eval" => pool = <<>>
-  /\ CASE Mode = "mc"   -> \E un \in BOOLEAN, pk \in BOOLEAN : (un => ~pk) /\ st = Acc0(un, pk) /\ phase = "build" /\ want = MaxLen
+  /\ CASE Mode = "mc"   -> \E un \in BOOLEAN, pk \in BOOLEAN : (un => ~pk) /\ (McSel = "scan" => ~un /\ ~pk) /\ st = Acc0(un, pk) /\ phase = "build" /\ want = MaxLen
        [] Mode = "gen"  -> st = Acc0(FALSE, FALSE) /\ phase = "idle" /\ want = 0
        [] Mode = "eval" -> LET inp == Input IN
                            \E i \in 1..Len(inp) : pool = <<[t |-> inp[i]]>> /\ st = Acc0(FALSE, FALSE) /\ phase = "idle" /\ want = i
@@ -578,6 +581,8 @@ Inv_ImplSane ==
 (* ======================================================================= *)
 (* VCASE emission (flow A of C06, field lists of C08)                       *)
 Inv_Emit == (Emit /\ Mode = "mc" /\ phase = "done") => PrintT("VCASE " \o ToJson(Case(Current)))
+
+Inv_EmitTerm == (Emit /\ Mode = "mc" /\ phase = "done") => PrintT("VCASE " \o ToJson(Current))
 
 Inv_SimFinish ==     \* closing the struct from any accumulator state agrees with the declarative rounding
   (CheckSim /\ Mode = "mc" /\ phase = "build" /\ ~st.un /\ st.align > 0) =>
